@@ -506,6 +506,13 @@ func (r *concRun) exec() {
 	wg.Add(1)
 	go func() {
 		defer wg.Done()
+		defer func() {
+			// a panic inside the library on the read goroutine is an observation, not a driver crash
+			if v := recover(); v != nil {
+				r.add(Ev{"e": "PANIC", "t": "R", "v": truncate(fmt.Sprint(v), 200)})
+				r.setFree()
+			}
+		}()
 		r.mu.Lock()
 		r.gids[xport.GID()] = "R"
 		r.mu.Unlock()
